@@ -367,6 +367,23 @@ class SemFlow(Flow):
                     P.calls.append((callee, args, res))
                     self.write(P, l, p, res)
                     return ret
+            # integer helpers of std on concrete sizes / indices (shape-concrete containers make them concrete)
+            mi = re.search(r"(?:num::<impl (?:usize|u8|u16|u32|u64|isize|i32|i64)>::|^<usize as Ord>::|^(?:core|std)::cmp::)(saturating_sub|saturating_add|wrapping_add|wrapping_sub|min|max|abs_diff)(?:::<.*>)?$", callee)
+            if mi:
+                iargs = [self.operand(P, a) for a in split_top(call[start + 1:k]) if a.strip()]
+                if len(iargs) == 2 and all(self.is_int(a) for a in iargs):
+                    x, y = iargs[0][1], iargs[1][1]
+                    r = {"saturating_sub": max(x - y, 0), "saturating_add": x + y, "wrapping_add": x + y, "wrapping_sub": x - y,
+                         "min": min(x, y), "max": max(x, y), "abs_diff": abs(x - y)}[mi.group(1)]
+                    l, p = self.parse_place(dest)
+                    self.write(P, l, p, ("int", r))
+                    return ret
+            if re.search(r"^<(?:usize|u8|u32|u64|isize|i32|i64) as From<bool>>::from$", callee):
+                iargs = [self.operand(P, a) for a in split_top(call[start + 1:k]) if a.strip()]
+                if len(iargs) == 1 and (iargs[0] is TRUE or iargs[0] is FALSE):
+                    l, p = self.parse_place(dest)
+                    self.write(P, l, p, ("int", 1 if iargs[0] is TRUE else 0))
+                    return ret
             # default: an uninterpreted function of its arguments; a structured argument (an aggregate holding references) is an opaque handle of its place
             if any(re.search(pat, callee) for pat in self.stop_calls):
                 P.calls.append(("STOP:" + callee, [], None))
